@@ -5,7 +5,11 @@ impl cbor_event::se::Serialize for HeaderBody {
         &self,
         serializer: &'se mut Serializer<W>,
     ) -> cbor_event::Result<&'se mut Serializer<W>> {
-        serializer.write_array(cbor_event::Len::Len(15))?;
+        // the legacy (pre-Babbage) layout has two VRF certs and the operational cert and protocol
+        // version inlined: 15 items. The Babbage+ layout has a single VRF result and carries the
+        // operational cert and the protocol version as nested arrays: 10 items.
+        let is_legacy = matches!(&self.leader_cert, HeaderLeaderCertEnum::NonceAndLeader(_, _));
+        serializer.write_array(cbor_event::Len::Len(if is_legacy { 15 } else { 10 }))?;
         self.block_number.serialize(serializer)?;
         self.slot.serialize(serializer)?;
         match &self.prev_hash {
@@ -25,10 +29,15 @@ impl cbor_event::se::Serialize for HeaderBody {
         }
         self.block_body_size.serialize(serializer)?;
         self.block_body_hash.serialize(serializer)?;
-        self.operational_cert
-            .serialize_as_embedded_group(serializer)?;
-        self.protocol_version
-            .serialize_as_embedded_group(serializer)?;
+        if is_legacy {
+            self.operational_cert
+                .serialize_as_embedded_group(serializer)?;
+            self.protocol_version
+                .serialize_as_embedded_group(serializer)?;
+        } else {
+            self.operational_cert.serialize(serializer)?;
+            self.protocol_version.serialize(serializer)?;
+        }
         Ok(serializer)
     }
 }
